@@ -23,7 +23,8 @@ so  TOL_FEAS = 300 s (3e-5; margin 265x; quara's own simulation check uses 1e-5)
 backtracking 1e-3 (squared error, 165x) / 2e-2 (relative entropy, 194x).  A projection that is skipped, mis-selected, or applied to the wrong
 point leaves residuals of 1e-2 .. 1 on the few-shot and far-out-of-range data (checked with mutated copies of the tree).
   * both options on, on_para_eq_constraint=False: defect of the constraint projected LAST in the option's order (estimate and stored iterates):
-    6.7e-14 at most (the other constraint: 4e-8 .. 1.1e-7) -> TOL_LAST = 1e-11 (150x margin; a run in the wrong order is 4000x above it)
+    6.7e-14 at most (the other constraint: 4e-8 .. 1.1e-7) -> REF_FACTOR = 100.0         # |quara projection - independent reference projection| <= REF_FACTOR * sqrt(eps_proj_physical)  (1e-5; observed <= 7e-8)
+TOL_LAST = 1e-11 (150x margin; a run in the wrong order is 4000x above it)
 Scope: physicality is judged per constraint option that is ON (both on = the property's "constraint options on"; one on = that constraint only).
 The combination (on_algo_eq_constraint=False, on_algo_ineq_constraint=True) under on_para_eq_constraint=True is NOT judged: it is not a
 configuration "with the constraint options on", and the installed variable-level inequality projection provably leaves the PSD set
@@ -43,6 +44,7 @@ FEAS_FACTOR = 300.0        # TOL_FEAS = FEAS_FACTOR * sqrt(eps_proj_physical)
 EXACT_PLE_FACTOR = 100.0
 TOL_EXACT_BT = {"se": 1e-3, "re": 2e-2}      # by loss family (squared error / relative entropy)
 TOL_SAME = 1e-12           # "exact same call" agreement
+REF_FACTOR = 100.0         # |quara projection - independent reference projection| <= REF_FACTOR * sqrt(eps_proj_physical)  (1e-5; observed <= 7e-8)
 TOL_LAST = 1e-11           # defect of the constraint projected last (rounding only; calibration below)
 
 
@@ -112,32 +114,59 @@ SYS = {"1qubit": ("qubit", 1), "1qutrit": ("qutrit", 1), "2qubit": ("qubit", 2)}
 STATE_NAMES = {"qubit": ["x0", "y0", "z0", "z1"],
                "qutrit": ["01z0", "12z0", "02z1", "01x0", "01y0", "12x0", "12y0", "02x0", "02y0"]}
 POVM_NAMES = {"qubit": ["x", "y", "z"], "qutrit": ["01x3", "01y3", "z3", "12x3", "12y3", "02x3", "02y3"]}
+# tomography settings (kind, system, number of outcomes of the estimated POVM / instrument; None = dim for povmt, 2 for qmpt).
+# outcome count != dimension is a STANDARD configuration (the equality constraints of POVMs / instruments involve both numbers)
+S_CORE = [("qst", "1qubit", None), ("povmt", "1qubit", None), ("povmt", "1qubit", 3), ("qpt", "1qubit", None), ("qst", "1qutrit", None)]
+S_LIGHT = S_CORE + [("qmpt", "1qubit", None), ("qmpt", "1qubit", 3), ("povmt", "1qutrit", 2)]          # cheap sub-checks, also in the quick tier
+S_THOROUGH = S_LIGHT + [("povmt", "1qutrit", None), ("povmt", "1qubit", 4), ("qst", "2qubit", None)]
 _QT_CACHE = {}
+_CSYS = {}             # one composite system per system name: experiments of the same system share it (needed to re-use objects across them)
 
 
-def make_qt(kind, sysname, para, eps_proj=None):
-    key = (kind, sysname, para, eps_proj)
+DEFAULT_M = {"povmt": None, "qmpt": 2}          # None: the dimension
+
+
+def make_qt(kind, sysname, para, eps_proj=None, m=None, rot=0):
+    """m: number of outcomes of the estimated POVM / instrument (default: dim / 2); rot: the tester lists rotated by `rot`
+    positions (another experiment with the same matrix shapes)"""
+    key = (kind, sysname, para, eps_proj, m, rot)
     if key in _QT_CACHE:
         return _QT_CACHE[key]
     Qm = q()
     mode, num = SYS[sysname]
-    c_sys = Qm.generate_composite_system(mode, num)
+    c_sys = _CSYS.get(sysname)
+    if c_sys is None:
+        c_sys = _CSYS[sysname] = Qm.generate_composite_system(mode, num)
     kw = dict(on_para_eq_constraint=para, schedules="all", seed_data=7)
     if eps_proj is not None:
         kw["eps_proj_physical"] = eps_proj
     dim = c_sys.dim
+
+    def rotd(names):
+        r = rot % len(names)
+        return names[r:] + names[:r]
+    snames, pnames = rotd(STATE_NAMES[mode]), rotd(POVM_NAMES[mode])
     if kind == "qst":
-        qt = Qm.QT[kind](Qm.generate_tester_povms(c_sys, POVM_NAMES[mode]), **kw)
+        qt = Qm.QT[kind](Qm.generate_tester_povms(c_sys, pnames), **kw)
     elif kind == "povmt":
-        qt = Qm.QT[kind](Qm.generate_tester_states(c_sys, STATE_NAMES[mode]), num_outcomes=dim, **kw)
+        qt = Qm.QT[kind](Qm.generate_tester_states(c_sys, snames), num_outcomes=(m or dim), **kw)
     elif kind == "qpt":
-        qt = Qm.QT[kind](Qm.generate_tester_states(c_sys, STATE_NAMES[mode]), Qm.generate_tester_povms(c_sys, POVM_NAMES[mode]), **kw)
+        qt = Qm.QT[kind](Qm.generate_tester_states(c_sys, snames), Qm.generate_tester_povms(c_sys, pnames), **kw)
     elif kind == "qmpt":
-        qt = Qm.QT[kind](Qm.generate_tester_states(c_sys, STATE_NAMES[mode]), Qm.generate_tester_povms(c_sys, POVM_NAMES[mode]), num_outcomes=2, **kw)
+        qt = Qm.QT[kind](Qm.generate_tester_states(c_sys, snames), Qm.generate_tester_povms(c_sys, pnames), num_outcomes=(m or 2), **kw)
     else:
         raise AssertionError(kind)
     _QT_CACHE[key] = (qt, c_sys)
     return qt, c_sys
+
+
+def qt_of(case, rot=None):
+    return make_qt(case["kind"], case["sys"], case["para"], m=case.get("m"), rot=case.get("rot", 0) if rot is None else rot)
+
+
+def sname(setting):
+    """settings are (kind, sys) or (kind, sys, m)"""
+    return dict(kind=setting[0], sys=setting[1], **({"m": setting[2]} if len(setting) > 2 else {}))
 
 
 def basis_mats(c_sys):
@@ -171,7 +200,7 @@ def hs_of_unitary_mix(B, Us, ps):
     return hs
 
 
-def true_object(ctx_rng, kind, sysname, c_sys, para, which):
+def true_object(ctx_rng, kind, sysname, c_sys, para, which, m=None):
     """which: 'boundary' (typical pure / projective / unitary object), 'interior' (mixture), 'generic' (seeded).
     returns a quara object with the requested parametrisation"""
     Qm = q()
@@ -191,13 +220,19 @@ def true_object(ctx_rng, kind, sysname, c_sys, para, which):
             rho = rand_density(ctx_rng, d, ctx_rng.randint(1, d))
         return Qm.State(c_sys, vec_of_op(B, rho), **common)
     if t == "povm":
-        m = d
+        m = m or d
         if which == "boundary":
-            # projective measurement in a rotated basis (rank-one projectors)
+            # projective measurement in a rotated basis (rank-one projectors); for m > d the last projector is split into
+            # m-d+1 proportional rank-one pieces, for m < d the last d-m+1 projectors are merged
             th = 0.3
             U = np.eye(d, dtype=complex)
             U[0, 0] = math.cos(th); U[0, 1] = -math.sin(th) * 1j; U[1, 0] = -math.sin(th) * 1j; U[1, 1] = math.cos(th)
-            els = [np.outer(U[:, x], U[:, x].conj()) for x in range(d)]
+            pr = [np.outer(U[:, x], U[:, x].conj()) for x in range(d)]
+            if m >= d:
+                w = [Fraction(k + 1, sum(range(1, m - d + 2))) for k in range(m - d + 1)]
+                els = pr[:d - 1] + [float(wk) * pr[d - 1] for wk in w]
+            else:
+                els = pr[:m - 1] + [sum(pr[m - 1:])]
         else:
             els = []
             rest = np.eye(d, dtype=complex)
@@ -236,6 +271,16 @@ def true_object(ctx_rng, kind, sysname, c_sys, para, which):
             a = ctx_rng.randint(1, 9) / 10
             tot = sum(mp.hss)
             hss = [a * hs_h @ mp.hss[0] + (1 - a) * 0.5 * tot, a * hs_h @ mp.hss[1] + (1 - a) * 0.5 * tot]
+        m = m or 2
+        if m > 2:
+            # more outcomes: the last element is split into m-1 pieces, each followed by a different unitary channel (a TP map keeps
+            # the first row of an HS matrix, so the sum stays trace preserving and every piece stays CP)
+            hs_p = Qm.generate_qoperation("gate", "phase", c_sys).hs
+            w = [Fraction(k + 1, sum(range(1, m))) for k in range(m - 1)]
+            post = [np.eye(hs_p.shape[0]), hs_p, hs_p @ hs_p, hs_p @ hs_p @ hs_p]
+            hss = [hss[0]] + [float(wk) * (post[k % 4] @ hss[1]) for k, wk in enumerate(w)]
+        elif m < 2:
+            hss = [hss[0] + hss[1]]
         return Qm.MProcess(c_sys, [np.array(h, dtype=float) for h in hss], **common)
     raise AssertionError(kind)
 
@@ -290,6 +335,77 @@ def tol_feas(obj):
 
 def stacked(obj):
     return np.asarray(obj.to_stacked_vector(), dtype=float)
+
+
+# ------------------------------------------------------------------ independent reference of the physical projection
+_REF_T = {}
+
+
+def _ref_tensors(B, choi):
+    key = (id(B), choi)
+    if key not in _REF_T:
+        if choi:
+            T = np.array([[np.kron(a, b.conj()) for b in B] for a in B])          # (d2, d2, d^2, d^2), orthonormal for an orthonormal basis
+        else:
+            T = np.array(B)                                                       # (d2, d, d)
+        _REF_T[key] = (B, T)
+    return _REF_T[key][1]
+
+
+def ref_proj_physical(ttype, B, arr, tol=1e-26, maxit=20000):
+    """Dykstra's algorithm written here on plain arrays: nearest point (Euclidean norm of the stacked parameters = Hilbert-Schmidt norm of the
+    operators, the basis being orthonormal) of {equality constraint} and {every element PSD}.  Uses nothing of quara but the basis matrices.
+    arr: (m, d2) coefficient vectors (state: m = 1, povm) or (m, d2, d2) HS matrices (gate: m = 1, mprocess).
+    returns (projection, iterations, last increment change)"""
+    d = B[0].shape[0]
+    choi = arr.ndim == 3
+    T = _ref_tensors(B, choi)
+    m = arr.shape[0]
+    sd = math.sqrt(d)
+
+    def p_eq(a):
+        a = a.copy()
+        if ttype == "state":
+            a[0, 0] = 1 / sd
+        elif ttype == "povm":
+            c = np.zeros(a.shape[1]); c[0] = sd
+            a -= (a.sum(axis=0) - c) / m
+        else:
+            e0 = np.zeros(a.shape[2]); e0[0] = 1
+            a[:, 0, :] -= (a[:, 0, :].sum(axis=0) - e0) / m
+        return a
+
+    def p_psd(a):
+        out = np.empty_like(a)
+        for x in range(m):
+            op = np.tensordot(a[x], T, axes=a[x].ndim)
+            w, v = np.linalg.eigh((op + op.conj().T) / 2)
+            op = (v * np.clip(w, 0, None)) @ v.conj().T
+            out[x] = np.real(np.tensordot(T.conj(), op, axes=2))
+        return out
+    x = np.array(arr, dtype=float)
+    p = np.zeros_like(x); qq = np.zeros_like(x)
+    err = None
+    for k in range(maxit):
+        y = p_psd(x + p); p2 = x + p - y
+        x2 = p_eq(y + qq); q2 = y + qq - x2
+        err = float(((p2 - p) ** 2).sum() + ((q2 - qq) ** 2).sum())
+        x, p, qq = x2, p2, q2
+        if k >= 1 and err < tol:
+            break
+    return x, k + 1, err
+
+
+def params_of(obj):
+    """(type, array of parameters) of a quara object in the layout of ref_proj_physical"""
+    Qm = q()
+    if isinstance(obj, Qm.State):
+        return "state", np.array([obj.vec], dtype=float)
+    if isinstance(obj, Qm.Povm):
+        return "povm", np.array(obj.vecs, dtype=float)
+    if isinstance(obj, Qm.Gate):
+        return "gate", np.array([obj.hs], dtype=float)
+    return "mprocess", np.array(obj.hss, dtype=float)
 
 
 # ------------------------------------------------------------------ data
@@ -421,9 +537,9 @@ def chk_estimate(ctx, case):
     Qm = q()
     rng = case_rng(ctx, case)
     kind, sysname, para = case["kind"], case["sys"], case["para"]
-    qt, c_sys = make_qt(kind, sysname, para)
+    qt, c_sys = qt_of(case)
     B = basis_mats(c_sys)
-    truth = true_object(rng, kind, sysname, c_sys, para, case["truth"])
+    truth = true_object(rng, kind, sysname, c_sys, para, case["truth"], m=case.get("m"))
     empi = empi_from(qt, truth, rng, case["data"], case["shots"])
     flags = tuple(case["flags"])
     template = qt.generate_empty_estimation_obj_with_setting_info()
@@ -533,9 +649,7 @@ def gen_estimate_cases(ctx):
     rng = ctx.rng
     cases = []
     quick = ctx.quick
-    settings = [("qst", "1qubit"), ("povmt", "1qubit"), ("qpt", "1qubit"), ("qst", "1qutrit")]
-    if not quick:
-        settings += [("qmpt", "1qubit"), ("qst", "2qubit"), ("povmt", "1qutrit")]
+    settings = list(S_CORE) + ([("qmpt", "1qubit", 3)] if quick else [t for t in S_THOROUGH if t not in S_CORE])
     n = 0
 
     def add(**kw):
@@ -545,14 +659,14 @@ def gen_estimate_cases(ctx):
         cases.append(kw)
 
     datas = [("exact", 1000), ("fewshot", 1), ("fewshot", 3), ("fewshot", 10), ("far", 5)]
-    for kind, sysname in settings:
+    for kind, sysname, mo in settings:
         small = sysname == "1qubit" and kind in ("qst", "povmt")
         for para in (True, False):
             # projected linear: both orders, all data kinds, all truths
             for order in ("eq_ineq", "ineq_eq"):
                 for data, shots in datas:
                     for truth in (("boundary", "interior", "generic") if data == "exact" else (rng.choice(["boundary", "interior", "generic"]),)):
-                        add(kind=kind, sys=sysname, para=para, truth=truth, data=data, shots=shots, est="ple", order=order,
+                        add(kind=kind, sys=sysname, m=mo, para=para, truth=truth, data=data, shots=shots, est="ple", order=order,
                             flags=[True, True], hist=rng.random() < 0.5)
             # loss minimisation
             combos = list(itertools.product(("bt", "mom", "fista"), ("wse", "swse", "wre", "swre")))
@@ -572,7 +686,7 @@ def gen_estimate_cases(ctx):
                     maxit = (40 if small else 25) if quick else (300 if small else 120)
                     if data == "exact" and algo == "bt":
                         maxit = max(maxit, 200)
-                    add(kind=kind, sys=sysname, para=para, truth=truth, data=data, shots=shots, est="lme", algo=algo, loss=loss,
+                    add(kind=kind, sys=sysname, m=mo, para=para, truth=truth, data=data, shots=shots, est="lme", algo=algo, loss=loss,
                         order=rng.choice(["eq_ineq", "ineq_eq"]), flags=fl, maxit=maxit, nohist=rng.random() < 0.3)
     return cases
 
@@ -621,7 +735,7 @@ def chk_select(ctx, case):
     Qm = q()
     m = ctx.get_model()
     rng = case_rng(ctx, case)
-    qt, c_sys = make_qt(case["kind"], case["sys"], case["para"])
+    qt, c_sys = qt_of(case)
     A, AO = Qm.ALGO[case["algo"]]
     si = qt.generate_empty_estimation_obj_with_setting_info()
     t_para, t_order = bool(si.on_para_eq_constraint), si.mode_proj_order
@@ -727,25 +841,25 @@ def chk_select_errors(ctx, case):
 def sub_select(ctx):
     rng = ctx.rng
     cases = []
-    settings = [("qst", "1qubit"), ("povmt", "1qubit"), ("qpt", "1qubit"), ("qst", "1qutrit")] + ([] if ctx.quick else [("qmpt", "1qubit"), ("povmt", "1qutrit")])
+    settings = S_LIGHT if ctx.quick else [t for t in S_THOROUGH if t[1] != "2qubit"]
     n = 0
-    for kind, sysname in settings:
+    for kind, sysname, mo in settings:
         for para in (True, False):
             for flags in ([True, True], [True, False], [False, True], [False, False]):
                 for order in ("eq_ineq", "ineq_eq"):
                     algos = ("bt", "mom", "fista") if not ctx.quick else (rng.choice(["bt", "mom", "fista"]),)
                     for algo in algos:
                         maxit = rng.choice([1, 2, 100000]) if flags == [True, True] else 100000
-                        cases.append(dict(id="s%d" % n, kind=kind, sys=sysname, para=para, algo=algo, flags=flags, order=order, maxit=maxit)); n += 1
+                        cases.append(dict(id="s%d" % n, kind=kind, sys=sysname, m=mo, para=para, algo=algo, flags=flags, order=order, maxit=maxit)); n += 1
             for _ in range(ctx.n(2, 6)):
                 f0 = rng.choice([[True, True], [True, False], [False, True], [False, False]])
                 f1 = rng.choice([f for f in ([True, True], [True, False], [False, True], [False, False]) if f != f0])
-                cases.append(dict(id="s%d" % n, kind=kind, sys=sysname, para=para, algo=rng.choice(["bt", "mom", "fista"]), flags=f1,
+                cases.append(dict(id="s%d" % n, kind=kind, sys=sysname, m=mo, para=para, algo=rng.choice(["bt", "mom", "fista"]), flags=f1,
                                   order=rng.choice(["eq_ineq", "ineq_eq"]), maxit=100000, cached=[f0, rng.choice(["eq_ineq", "ineq_eq"]), 100000])); n += 1
             # a projection handed to the constructor (equality projection / identity), then one or two configurations
             for g in (1, 3):
                 f1 = rng.choice([[True, True], [True, False], [False, True], [False, False]])
-                c = dict(id="s%d" % n, kind=kind, sys=sysname, para=para, algo=rng.choice(["bt", "mom", "fista"]), flags=f1,
+                c = dict(id="s%d" % n, kind=kind, sys=sysname, m=mo, para=para, algo=rng.choice(["bt", "mom", "fista"]), flags=f1,
                          order=rng.choice(["eq_ineq", "ineq_eq"]), maxit=100000, given=g); n += 1
                 if rng.random() < 0.5:
                     c["cached"] = [rng.choice([[True, True], [False, False]]), rng.choice(["eq_ineq", "ineq_eq"]), 100000]
@@ -755,61 +869,139 @@ def sub_select(ctx):
     ctx.run_cases("select", chk_select_errors, [{"order": o} for o in ("eq_ineq", "ineq_eq", "eq-ineq", "", "ineq_eq ")])
 
 
-# ------------------------------------------------------------------ sub-check: reuse (one algorithm object, several jobs — end to end)
+# ------------------------------------------------------------------ sub-check: reuse (histories: objects used for several jobs — end to end)
+def _lme_job(Qm, qt, empi, est, loss, lopt, algo, AO, fl, order, maxit):
+    opt = AO(on_algo_eq_constraint=fl[0], on_algo_ineq_constraint=fl[1], mode_proj_order=order, max_iteration_optimization=maxit)
+    with quiet():
+        return est.calc_estimate(qt, empi, loss, lopt, algo, opt)
+
+
 def chk_reuse(ctx, case):
-    """LossMinimizationEstimator.calc_estimate called repeatedly with the SAME algorithm object and different options (Props:
-    C10_reused_algorithm_installs_projection_of_last_configuration): the last job's estimate is exactly the estimate a fresh object returns,
-    and it is feasible for the constraint options that are on in that job"""
+    """One LossMinimizationEstimator + loss + loss-option + algorithm object used for a sequence of jobs; the jobs differ in the constraint options /
+    projection order AND in the tomography experiment (tester lists rotated: same matrix shapes, other matrices).  (Props:
+    C10_reused_algorithm_installs_projection_of_last_configuration for the projection.)  EVERY job's estimate must be exactly the estimate that
+    all-fresh objects return for that job alone, and feasible for the constraint options that are on in that job."""
     Qm = q()
     rng = case_rng(ctx, case)
     kind, sysname, para = case["kind"], case["sys"], case["para"]
-    qt, c_sys = make_qt(kind, sysname, para)
-    B = basis_mats(c_sys)
-    truth = true_object(rng, kind, sysname, c_sys, para, "generic")
-    empi = empi_from(qt, truth, rng, case["data"], case["shots"])
     A, AO = Qm.ALGO[case["algo"]]
     L, LO = Qm.LOSS[case["loss"]]
-    algo = A()
-    res = None
-    for fl, order in case["jobs"]:
-        opt = AO(on_algo_eq_constraint=fl[0], on_algo_ineq_constraint=fl[1], mode_proj_order=order, max_iteration_optimization=case["maxit"])
-        with quiet():
-            res = Qm.LossMinimizationEstimator().calc_estimate(qt, empi, L(qt.num_variables), LO("identity"), algo, opt)
-    fl, order = case["jobs"][-1]
-    flags = tuple(fl)
-    fresh, *_ = run_lme(qt, empi, case["algo"], case["loss"], flags, order, case["maxit"])
-    same = np.array_equal(np.asarray(res.estimated_var, dtype=float), np.asarray(fresh.estimated_var, dtype=float))
-    tol = tol_feas(qt.generate_empty_estimation_obj_with_setting_info())
-    bad, er, me = feasibility(ctx, res.estimated_qoperation, B, flags, tol)
-    moved = float(np.abs(np.asarray(fresh.estimated_var, dtype=float)).max()) > 0
-    ctx.count("reuse", key=case["id"], nontrivial=moved, label="%s:%s:%s" % (case["algo"], "->".join("eq%d-ineq%d-%s" % (int(f[0]), int(f[1]), o) for f, o in case["jobs"]), "same-as-fresh" if same else "differs"))
-    if not same:
-        ctx.violation("reuse", SELECT_SITE, CACHED_SIG,
-                      "%s %s/%s para=%s data=%s: one algorithm object used for the jobs %s: the last estimate %s differs from the estimate of a fresh object %s "
-                      "(constraints of the last job violated: %s; eq residual %.3e, min eigenvalue %.3e, tolerance %.1e)" % (
-                          kind, case["algo"], case["loss"], para, case["data"], case["jobs"], [float(t) for t in res.estimated_var], [float(t) for t in fresh.estimated_var], bad or "none", er, me, tol), case)
-    elif bad:
-        ctx.violation("reuse", ALGO_SITE[case["algo"]], "estimate-not-physical:" + bad[0].split(":")[0],
-                      "%s %s/%s para=%s flags=%s data=%s: estimate violates %s (eq residual %.3e, min eigenvalue %.3e, tolerance %.1e)" % (
-                          kind, case["algo"], case["loss"], para, flags, case["data"], bad, er, me, tol), case)
+    shared = case.get("shared", ["est", "loss", "lopt", "algo"])
+    qt0, c_sys = qt_of(case, rot=0)
+    B = basis_mats(c_sys)
+    est, loss, lopt, algo = Qm.LossMinimizationEstimator(), L(qt0.num_variables), LO("identity"), A()
+    seen_rot = []
+    for ji, (fl, order, rot) in enumerate(case["jobs"]):
+        qt, _ = qt_of(case, rot=rot)
+        truth = true_object(rng, kind, sysname, c_sys, para, "generic", m=case.get("m"))
+        empi = empi_from(qt, truth, rng, case["data"], case["shots"])
+        objs = dict(est=est if "est" in shared else Qm.LossMinimizationEstimator(), loss=loss if "loss" in shared else L(qt.num_variables),
+                    lopt=lopt if "lopt" in shared else LO("identity"), algo=algo if "algo" in shared else A())
+        res = _lme_job(Qm, qt, empi, objs["est"], objs["loss"], objs["lopt"], objs["algo"], AO, fl, order, case["maxit"])
+        fresh = _lme_job(Qm, qt, empi, Qm.LossMinimizationEstimator(), L(qt.num_variables), LO("identity"), A(), AO, fl, order, case["maxit"])
+        flags = tuple(fl)
+        same = np.array_equal(np.asarray(res.estimated_var, dtype=float), np.asarray(fresh.estimated_var, dtype=float))
+        tol = tol_feas(qt.generate_empty_estimation_obj_with_setting_info())
+        bad, er, me = feasibility(ctx, res.estimated_qoperation, B, flags, tol)
+        hist = "first" if ji == 0 else ("other-experiment-same-shape" if any(r != rot for r in seen_rot) else "same-experiment")
+        seen_rot.append(rot)
+        ctx.count("reuse", key=(case["id"], ji), nontrivial=ji > 0, label="lme:%s:%s:eq%d-ineq%d-%s:%s" % (case["algo"], hist, int(fl[0]), int(fl[1]), order, "same-as-fresh" if same else "differs"))
+        jc = dict(case, focus_job=ji)
+        if not same:
+            # which shared object carries the state?  (the algorithm object's projection: C13's repaired defect; anything else: named)
+            ctx.violation("reuse", SELECT_SITE if shared == ["algo"] else "LossMinimizationEstimator.calc_estimate", CACHED_SIG if shared == ["algo"] else "reused-objects-change-estimate",
+                          "%s %s/%s para=%s data=%s: objects %s shared over the jobs %s: estimate of job %d %s differs from the estimate of fresh objects %s "
+                          "(constraints of that job violated: %s; eq residual %.3e, min eigenvalue %.3e, tolerance %.1e)" % (
+                              kind, case["algo"], case["loss"], para, case["data"], shared, case["jobs"], ji, [float(t) for t in res.estimated_var][:8], [float(t) for t in fresh.estimated_var][:8], bad or "none", er, me, tol), jc)
+            return
+        if bad:
+            ctx.violation("reuse", ALGO_SITE[case["algo"]], "estimate-not-physical:" + bad[0].split(":")[0],
+                          "%s %s/%s para=%s flags=%s data=%s: estimate violates %s (eq residual %.3e, min eigenvalue %.3e, tolerance %.1e)" % (
+                              kind, case["algo"], case["loss"], para, flags, case["data"], bad, er, me, tol), jc)
+            return
+
+
+def chk_reuse_linear(ctx, case):
+    """One LinearEstimator and one ProjectedLinearEstimator instance used for a sequence of experiments (tester lists rotated: same matrix shapes,
+    other matrices; a different parametrisation / system in between), single and sequence calls, exact and sampled data.  Every estimate must be exactly
+    what a fresh instance returns, and for exact data of a physical object it must be that object."""
+    Qm = q()
+    rng = case_rng(ctx, case)
+    lin, ple = Qm.LinearEstimator(), Qm.ProjectedLinearEstimator(case["order"])
+    seen = []
+    for ji, (spec, rot, data, mode) in enumerate(case["jobs"]):
+        c2 = dict(spec, rot=rot)
+        qt, c_sys = qt_of(c2)
+        B = basis_mats(c_sys)
+        truth = true_object(rng, c2["kind"], c2["sys"], c_sys, c2["para"], rng.choice(["boundary", "interior", "generic"]), m=c2.get("m"))
+        empi = empi_from(qt, truth, rng, data, 3)
+        key = (c2["kind"], c2["sys"], c2.get("m"), c2["para"])
+        hist = "first-of-its-shape" if key not in [k for k, _ in seen] else ("other-experiment-same-shape" if any(k == key and r != rot for k, r in seen) else "same-experiment")
+        seen.append((key, rot))
+        for name, inst, cls in (("LinearEstimator", lin, Qm.LinearEstimator), ("ProjectedLinearEstimator", ple, lambda: Qm.ProjectedLinearEstimator(case["order"]))):
+            with quiet():
+                if mode == "seq":
+                    got = inst.calc_estimate_sequence(qt, [empi, empi]).estimated_var_sequence[-1]
+                    exp = cls().calc_estimate_sequence(qt, [empi, empi]).estimated_var_sequence[-1]
+                else:
+                    got = inst.calc_estimate(qt, empi).estimated_var
+                    exp = cls().calc_estimate(qt, empi).estimated_var
+            got = np.asarray(got, dtype=float); exp = np.asarray(exp, dtype=float)
+            same = np.array_equal(got, exp)
+            ctx.count("reuse_linear", key=(case["id"], ji, name), nontrivial=hist != "first-of-its-shape", label="%s:%s:%s:%s" % (name, hist, mode, "same-as-fresh" if same else "differs"))
+            jc = dict(case, focus_job=ji)
+            if not same:
+                ctx.violation("reuse_linear", name + ".calc_estimate_sequence", "reused-estimator-changes-estimate",
+                              "one %s instance used for the experiments %s: job %d (%s %s m=%s para=%s testers rotated by %d, %s data, %s call) returns %s, a fresh instance %s (difference %.3e)" % (
+                                  name, [(j[0]["kind"], j[1]) for j in case["jobs"]], ji, c2["kind"], c2["sys"], c2.get("m"), c2["para"], rot, data, mode,
+                                  [float(t) for t in got][:6], [float(t) for t in exp][:6], float(np.abs(got - exp).max())), jc)
+                return
+            if data == "exact":
+                s_ = math.sqrt(truth.eps_proj_physical)
+                dist = float(np.abs(got - np.asarray(truth.to_var(), dtype=float)).max())
+                if dist > (1e-9 if name == "LinearEstimator" else EXACT_PLE_FACTOR * s_):
+                    ctx.violation("reuse_linear", name + ".calc_estimate", "exact-data-not-recovered",
+                                  "%s, job %d of a re-used instance (%s %s para=%s rot=%d): exact data of a physical object, |estimate - truth| = %.3e" % (name, ji, c2["kind"], c2["sys"], c2["para"], rot, dist), jc)
+                    return
 
 
 def sub_reuse(ctx):
     rng = ctx.rng
     cases = []
     n = 0
-    patterns = [[[[False, False], "eq_ineq"], [[True, True], "eq_ineq"]],
-                [[[True, True], "eq_ineq"], [[True, True], "ineq_eq"]],
-                [[[True, False], "eq_ineq"], [[False, False], "eq_ineq"], [[True, True], "ineq_eq"]]]
-    settings = [("qst", "1qubit")] + ([] if ctx.quick else [("povmt", "1qubit"), ("qst", "1qutrit")])
-    for kind, sysname in settings:
+    T, F = True, False
+    # loss minimisation: (flags, order, rotation of the tester lists)
+    patterns = [[[[F, F], "eq_ineq", 0], [[T, T], "eq_ineq", 0]],
+                [[[T, T], "eq_ineq", 0], [[T, T], "ineq_eq", 1]],
+                [[[T, T], "eq_ineq", 0], [[T, T], "eq_ineq", 1], [[T, T], "eq_ineq", 2]],
+                [[[T, F], "eq_ineq", 1], [[F, F], "eq_ineq", 0], [[T, T], "ineq_eq", 2]]]
+    settings = [("qst", "1qubit", None), ("povmt", "1qubit", 3)] + ([] if ctx.quick else [("qpt", "1qubit", None), ("qst", "1qutrit", None), ("qmpt", "1qubit", 3)])
+    for kind, sysname, mo in settings:
         for para in (True, False):
             for algo in ("bt", "mom", "fista"):
                 for jobs in (patterns if not ctx.quick else [patterns[0], rng.choice(patterns[1:])]):
-                    cases.append(dict(id="u%d" % n, kind=kind, sys=sysname, para=para, algo=algo, loss=rng.choice(["wse", "swse", "wre"]),
-                                      data=rng.choice(["far", "fewshot"]), shots=2, jobs=jobs, maxit=25)); n += 1
+                    cases.append(dict(id="u%d" % n, kind=kind, sys=sysname, m=mo, para=para, algo=algo, loss=rng.choice(["wse", "swse", "wre", "swre"]),
+                                      data=rng.choice(["far", "fewshot"]), shots=2, jobs=jobs, maxit=25,
+                                      shared=rng.choice([["algo"], ["est", "loss", "lopt", "algo"], ["est", "loss", "lopt", "algo"], ["loss", "lopt"]]))); n += 1
     ctx.sample("reuse", cases[0])
     ctx.run_cases("reuse", chk_reuse, stamp(ctx, cases))
+
+
+def sub_reuse_linear(ctx):
+    """linear / projected linear: one instance over several experiments"""
+    rng = ctx.rng
+    lcases = []
+    specs = [dict(kind=k, sys=s_, m=mo, para=p) for k, s_, mo in (S_LIGHT if ctx.quick else S_THOROUGH) for p in (True, False)]
+    for i in range(ctx.n(10, 40)):
+        a = rng.choice(specs)
+        b = rng.choice([sp for sp in specs if sp != a])
+        jobs = [[a, 0, rng.choice(["exact", "fewshot"]), rng.choice(["single", "seq"])],
+                [a, rng.choice([1, 2]), "exact", rng.choice(["single", "seq"])],
+                [b, 0, rng.choice(["exact", "far"]), "single"],
+                [a, rng.choice([0, 1, 2, 3]), rng.choice(["exact", "fewshot", "far"]), rng.choice(["single", "seq"])]]
+        lcases.append(dict(id="v%d" % i, order=rng.choice(["eq_ineq", "ineq_eq"]), jobs=jobs))
+    ctx.sample("reuse_linear", lcases[0])
+    ctx.run_cases("reuse_linear", chk_reuse_linear, stamp(ctx, lcases))
 
 
 # ------------------------------------------------------------------ sub-check: origin
@@ -819,7 +1011,7 @@ TYPE_CODE = {"state": 0, "povm": 1, "gate": 2, "mprocess": 3}
 def chk_origin(ctx, case):
     Qm = q()
     m = ctx.get_model()
-    qt, c_sys = make_qt(case["kind"], case["sys"], case["para"])
+    qt, c_sys = qt_of(case)
     B = basis_mats(c_sys)
     si = qt.generate_empty_estimation_obj_with_setting_info()
     org = si.generate_origin_obj()
@@ -828,7 +1020,7 @@ def chk_origin(ctx, case):
     mm = len(org.vecs) if t == "povm" else (len(org.hss) if t == "mprocess" else 1)
     mod = [float(v) for v in m.call("c10.origin", [TYPE_CODE[t], d * d, mm], [float(np.sqrt(d))])]
     impl = [float(v) for v in stacked(org)]
-    ctx.count("origin", key=(case["kind"], case["sys"], case["para"]), nontrivial=True, label=t)
+    ctx.count("origin", key=(case["kind"], case["sys"], case.get("m"), case["para"]), nontrivial=True, label="%s:m=%s" % (t, mm))
     if len(mod) != len(impl) or max(abs(a - b) for a, b in zip(mod, impl)) > 1e-15:
         ctx.violation("origin", "QOperation.generate_origin_obj", "value", "%s origin object differs from the model: impl %s model %s" % (t, impl[:8], mod[:8]), case)
         return
@@ -836,18 +1028,18 @@ def chk_origin(ctx, case):
     if er > 1e-14 or not psd_exact(ctx, org, B, 0.0) or not org.is_physical():
         ctx.violation("origin", "QOperation.generate_origin_obj", "not-physical", "%s origin: eq residual %.2e, min eigenvalue %.3e, is_physical=%s" % (t, er, min_eig(org, B), org.is_physical()), case)
     # the three algorithms start from it
-    truth = true_object(case_rng(ctx, case), case["kind"], case["sys"], c_sys, case["para"], "interior")
+    truth = true_object(case_rng(ctx, case), case["kind"], case["sys"], c_sys, case["para"], "interior", m=case.get("m"))
     empi = empi_from(qt, truth, None, "exact", 100)
     for algo in ("bt", "mom", "fista"):
         res, det, *_ = run_lme(qt, empi, algo, "wse", (True, True), "eq_ineq", 1)
-        ctx.count("origin", key=(case["kind"], case["sys"], case["para"], algo), nontrivial=True, label="start:" + algo)
+        ctx.count("origin", key=(case["kind"], case["sys"], case.get("m"), case["para"], algo), nontrivial=True, label="start:" + algo)
         if not np.array_equal(np.asarray(det.x[0], dtype=float), np.asarray(org.to_var(), dtype=float)):
             ctx.violation("origin", ALGO_SITE[algo], "start-not-origin", "%s: first stored iterate %s is not the origin object's variables %s" % (algo, det.x[0], org.to_var()), case)
 
 
 def sub_origin(ctx):
-    settings = [("qst", "1qubit"), ("povmt", "1qubit"), ("qpt", "1qubit"), ("qmpt", "1qubit"), ("qst", "1qutrit"), ("povmt", "1qutrit")] + ([] if ctx.quick else [("qst", "2qubit")])
-    cases = [dict(id="o%d%d" % (i, int(p)), kind=k, sys=s, para=p) for i, (k, s) in enumerate(settings) for p in (True, False)]
+    settings = S_LIGHT if ctx.quick else S_THOROUGH
+    cases = [dict(id="o%d%d" % (i, int(p)), kind=k, sys=s, m=mo, para=p) for i, (k, s, mo) in enumerate(settings) for p in (True, False)]
     ctx.sample("origin", cases[0])
     ctx.run_cases("origin", chk_origin, stamp(ctx, cases))
 
@@ -876,8 +1068,8 @@ def chk_steps(ctx, case):
     m = ctx.get_model()
     rng = case_rng(ctx, case)
     kind, sysname, para, algo = case["kind"], case["sys"], case["para"], case["algo"]
-    qt, c_sys = make_qt(kind, sysname, para)
-    truth = true_object(rng, kind, sysname, c_sys, para, case["truth"])
+    qt, c_sys = qt_of(case)
+    truth = true_object(rng, kind, sysname, c_sys, para, case["truth"], m=case.get("m"))
     empi = empi_from(qt, truth, rng, case["data"], case["shots"])
     flags = tuple(case["flags"])
     res, det, algo_obj, opt, loss, rec = run_lme(qt, empi, algo, "wse", flags, case["order"], case["maxit"], record=True)
@@ -982,16 +1174,16 @@ def mag_of(fx):
 def sub_steps(ctx):
     rng = ctx.rng
     cases = []
-    settings = [("qst", "1qubit"), ("povmt", "1qubit"), ("qpt", "1qubit"), ("qst", "1qutrit")] + ([] if ctx.quick else [("qmpt", "1qubit"), ("qst", "2qubit")])
+    settings = S_LIGHT if ctx.quick else S_THOROUGH
     n = 0
-    for kind, sysname in settings:
+    for kind, sysname, mo in settings:
         for para in (True, False):
             for algo in ("bt", "mom", "fista"):
                 for data, shots in (("fewshot", 2), ("far", 5), ("exact", 100)) if not ctx.quick else (("fewshot", 2), ("far", 5)):
                     r = rng.random()
                     flags = [True, True] if r < 0.7 else ([True, False] if r < 0.85 else [False, True])
                     big = kind in ("qpt", "qmpt") or sysname != "1qubit"
-                    cases.append(dict(id="t%d" % n, kind=kind, sys=sysname, para=para, algo=algo, data=data, shots=shots,
+                    cases.append(dict(id="t%d" % n, kind=kind, sys=sysname, m=mo, para=para, algo=algo, data=data, shots=shots,
                                       truth=rng.choice(["boundary", "interior", "generic"]), flags=flags, order=rng.choice(["eq_ineq", "ineq_eq"]),
                                       maxit=(4 if big else 8) if ctx.quick else (10 if big else 25))); n += 1
     ctx.sample("steps", cases[0])
@@ -1059,9 +1251,9 @@ def chk_ple(ctx, case):
     Qm = q()
     rng = case_rng(ctx, case)
     kind, sysname, para, order = case["kind"], case["sys"], case["para"], case["order"]
-    qt, c_sys = make_qt(kind, sysname, para)
+    qt, c_sys = qt_of(case)
     B = basis_mats(c_sys)
-    truth = true_object(rng, kind, sysname, c_sys, para, case["truth"])
+    truth = true_object(rng, kind, sysname, c_sys, para, case["truth"], m=case.get("m"))
     empi = empi_from(qt, truth, rng, case["data"], case["shots"])
     site = "ProjectedLinearEstimator.calc_estimate"
     with quiet():
@@ -1084,6 +1276,22 @@ def chk_ple(ctx, case):
                       "%s para=%s order=%s data=%s: projected linear estimate differs from calc_proj_physical(linear estimate) by %.3e (from the other order's result by %.3e)" % (
                           kind, para, order, case["data"], d_same, d_other), case)
         return
+    # "precisely the physical projection of the linear estimate": against a reference that shares no code with quara's projection routines
+    # (ref_proj_physical: numpy Dykstra on the operators rebuilt from the basis), to the stopping accuracy
+    ttype, arr_lin = params_of(lin.estimated_qoperation)
+    arr_ref, it_ref, err_ref = ref_proj_physical(ttype, B, arr_lin)
+    d_ref = float(np.abs(params_of(ple.estimated_qoperation)[1] - arr_ref).max())
+    tol_ref = REF_FACTOR * math.sqrt(ple.estimated_qoperation.eps_proj_physical)
+    cal("ple_vs_reference_projection", d_ref)
+    ctx.count("ple", key=(case["id"], "ref"), nontrivial=moved, label="vs-reference:%s:m=%s:%s" % (kind, arr_lin.shape[0], order))
+    if err_ref > 1e-20:
+        ctx.count("ple", key=(case["id"], "ref-slow"), nontrivial=False, label="reference-not-converged")
+    elif d_ref > tol_ref:
+        ctx.violation("ple", site, "not-the-physical-projection",
+                      "%s m=%s para=%s order=%s data=%s: projected linear estimate differs by %.3e (> %.1e) from the nearest physical point to the linear estimate (independent reference, %d sweeps); "
+                      "distance to the linear estimate: estimate %.6f, reference %.6f" % (
+                          kind, arr_lin.shape[0], para, order, case["data"], d_ref, tol_ref, it_ref,
+                          float(np.linalg.norm(params_of(ple.estimated_qoperation)[1] - arr_lin)), float(np.linalg.norm(arr_ref - arr_lin))), case)
     # the returned point of calc_proj_physical is an output of the projection applied last (theorem): that constraint holds to rounding
     robj = refs[order]
     if order == "eq_ineq":
@@ -1108,18 +1316,71 @@ def chk_ple(ctx, case):
 def sub_ple(ctx):
     rng = ctx.rng
     cases = []
-    settings = [("qst", "1qubit"), ("povmt", "1qubit"), ("qpt", "1qubit"), ("qst", "1qutrit")] + ([] if ctx.quick else [("qmpt", "1qubit"), ("qst", "2qubit"), ("povmt", "1qutrit")])
+    settings = S_LIGHT if ctx.quick else S_THOROUGH
     n = 0
-    for kind, sysname in settings:
+    for kind, sysname, mo in settings:
         for para in (True, False):
             for order in ("eq_ineq", "ineq_eq"):
                 for data, shots in (("exact", 100), ("fewshot", 1), ("fewshot", 4), ("far", 5)):
                     for rep in range(ctx.n(1, 3)):
-                        cases.append(dict(id="p%d" % n, kind=kind, sys=sysname, para=para, order=order, data=data, shots=shots,
+                        cases.append(dict(id="p%d" % n, kind=kind, sys=sysname, m=mo, para=para, order=order, data=data, shots=shots,
                                           truth=rng.choice(["boundary", "interior", "generic"]) if data != "exact" else ["boundary", "interior", "generic"][rep % 3] if not ctx.quick else rng.choice(["boundary", "interior", "generic"]),
                                           hist=rng.random() < 0.5)); n += 1
     ctx.sample("ple", cases[0])
     ctx.run_cases("ple", chk_ple, stamp(ctx, cases))
+
+
+# ------------------------------------------------------------------ sub-check: projref (the four physical-projection routines vs the reference)
+def chk_projref(ctx, case):
+    """QOperation.calc_proj_physical (object level) and calc_proj_physical_with_var (variable level; the projection the three algorithms install),
+    both orders, on NON-physical inputs, against the independent reference projection.  C05 owns the theory of the loop; here the four routines
+    C10's estimators rely on are pinned to 'nearest physical point' for every object type, outcome count and parametrisation."""
+    rng = case_rng(ctx, case)
+    kind, sysname, para = case["kind"], case["sys"], case["para"]
+    qt, c_sys = qt_of(case)
+    B = basis_mats(c_sys)
+    si = qt.generate_empty_estimation_obj_with_setting_info()
+    truth = true_object(rng, kind, sysname, c_sys, para, case["truth"], m=case.get("m"))
+    var0 = np.asarray(truth.to_var(), dtype=float)
+    var = var0 + np.array([rng.randint(-8, 8) / 10 * case["amp"] for _ in range(len(var0))])
+    obj = si.generate_from_var(var)
+    ttype, arr = params_of(obj)
+    ref, it_ref, err_ref = ref_proj_physical(ttype, B, arr)
+    moved = float(np.abs(ref - arr).max())
+    tol = REF_FACTOR * math.sqrt(si.eps_proj_physical)
+    if err_ref > 1e-20:
+        ctx.count("projref", key=case["id"], nontrivial=False, label="reference-not-converged")
+        return
+    for order in ("eq_ineq", "ineq_eq"):
+        o = obj.copy(); o.set_mode_proj_order(order)
+        with quiet():
+            r_obj = o.calc_proj_physical()
+            v = o.calc_proj_physical_with_var(var.copy(), on_para_eq_constraint=para)
+        r_var = si.generate_from_var(np.asarray(v, dtype=float))
+        for level, r, site in (("obj", r_obj, "QOperation.calc_proj_physical"), ("var", r_var, "QOperation.calc_proj_physical_with_var")):
+            dd = float(np.abs(params_of(r)[1] - ref).max())
+            cal("projection_vs_reference [%s]" % level, dd)
+            ctx.count("projref", key=(case["id"], order, level), nontrivial=moved > 1e-3, label="%s:m=%s:%s:%s" % (ttype, arr.shape[0], level, order))
+            if dd > tol:
+                ctx.violation("projref", site, "not-the-physical-projection",
+                              "%s m=%s para=%s order=%s: result differs by %.3e (> %.1e) from the nearest physical point (independent reference, %d sweeps; the input is %.3f away from it); "
+                              "distance input-result %.6f, input-reference %.6f" % (
+                                  ttype, arr.shape[0], para, order, dd, tol, it_ref, moved,
+                                  float(np.linalg.norm(params_of(r)[1] - arr)), float(np.linalg.norm(ref - arr))), dict(case, order=order, level=level))
+
+
+def sub_projref(ctx):
+    rng = ctx.rng
+    cases = []
+    n = 0
+    for kind, sysname, mo in (S_LIGHT if ctx.quick else S_THOROUGH):
+        for para in (True, False):
+            for rep in range(ctx.n(2, 6)):
+                cases.append(dict(id="j%d" % n, kind=kind, sys=sysname, m=mo, para=para, truth=rng.choice(["boundary", "interior", "generic"]),
+                                  amp=rng.choice([0.3, 1.0, 3.0]))); n += 1
+    ctx.sample("projref", cases[0])
+    ctx.run_cases("projref", chk_projref, stamp(ctx, cases))
+    ctx.note("projref: max |quara projection - reference| this run: %s" % {k: float("%.3g" % v) for k, v in sorted(CAL.items()) if k.startswith("projection_vs")})
 
 
 # ------------------------------------------------------------------ sub-check: ineq_var (variable-level inequality projection under on_para_eq_constraint=True)
@@ -1183,8 +1444,8 @@ def sub_ineq_var(ctx):
     ctx.run_cases("ineq_var", chk_ineq_var, cases)
 
 
-SUBS = [("select", sub_select), ("reuse", sub_reuse), ("origin", sub_origin), ("steps", sub_steps), ("run_eq", sub_run_eq), ("ple", sub_ple), ("ineq_var", sub_ineq_var), ("estimates", sub_estimates)]
-FNS = {"select": chk_select, "reuse": chk_reuse, "origin": chk_origin, "steps": chk_steps, "run_eq": chk_run_eq, "ple": chk_ple, "ineq_var": chk_ineq_var, "estimates": chk_estimate}
+SUBS = [("select", sub_select), ("reuse", sub_reuse), ("reuse_linear", sub_reuse_linear), ("origin", sub_origin), ("steps", sub_steps), ("run_eq", sub_run_eq), ("ple", sub_ple), ("projref", sub_projref), ("ineq_var", sub_ineq_var), ("estimates", sub_estimates)]
+FNS = {"select": chk_select, "reuse": chk_reuse, "reuse_linear": chk_reuse_linear, "origin": chk_origin, "steps": chk_steps, "run_eq": chk_run_eq, "ple": chk_ple, "projref": chk_projref, "ineq_var": chk_ineq_var, "estimates": chk_estimate}
 
 
 def run(ctx):
